@@ -1498,6 +1498,6 @@ META = dict(
         "lexicographic order; the formulas of the piecewise-linear integration (beat length, measure length, "
         "position difference integrated at the earlier change's tempo, one index into both change tables, the "
         "ms->position split) are compared in rational-function canonical form; and the snapper steps to the left "
-        "neighbour of a sorted table exactly when it is nearer. RAConst's unit helpers are the exact scalings their names state and return Python floats (R8; required because item_props' setter casts numpy scalars to the field's current dtype); bpm_changes_offset_to_snap yields exactly one position entry per tempo change (R9); a clamp or rounding wrapped around an operand of a formula is a violation, not an unknown."),
+        "neighbour of a sorted table exactly when it is nearer. RAConst's unit helpers are the exact scalings their names state and return Python floats (R8; required because item_props' setter casts numpy scalars to the field's current dtype); bpm_changes_offset_to_snap yields exactly one position entry per tempo change (R9); a clamp or rounding wrapped around an operand of a formula is a violation, not an unknown. The tempo list the queries index by position is the one that is sorted in place (a sorted copy leaves a directly built map unsorted, R2)."),
     not_decided="numeric values: the 1/192 round-trip bound, idempotence of snapping, exact beat monotonicity (arithmetic over runtime tempos)",
 )
